@@ -396,6 +396,20 @@ def check(ctx):
 
     # ------------------------------------------------------------------ R4
     sc = repo.cls(STOP)
+    # the stopper is a mutable configuration object (optim_flat itself rewrites patience):
+    # its rule methods read the fields at call time -- no jit / cache keyed on the object
+    deco = {}
+    for mname in ("stop_early", "stop_now", "continue_", "which_best_in_recent_history"):
+        mf = sc.own_method(mname)
+        if mf is not None and mf.decorators():
+            deco[mname] = mf.decorators()
+    cls_deco = [ast.unparse(d) for d in sc.node.decorator_list]
+    ctx.ob("C20.R4", sc, "the Stopper's rule methods are plain methods of a plain dataclass "
+                         "(no jit with the object as a static argument, no memoisation: a "
+                         "later change of patience / atol / rtol must take effect)",
+           not deco and cls_deco in (["dataclass"], ["dataclasses.dataclass"]),
+           detail=f"method decorators {deco}; class decorators {cls_deco}",
+           stmt=f"stopper decorators {sorted(deco)} {cls_deco}")
     se = method(repo, sc, "stop_early", own=True)
     rs = evaluate(repo, se).ret()
     W = ("n", "WINDOW")
